@@ -597,6 +597,20 @@ Definition cmp_res (r : result (lattice fv)) (self : lattice fv) (e : expect) : 
   | Err a, EErr b => if err_eqb a b then 0 else 2
   | _, _ => 2
   end%nat.
+(* np.mean over 3 lattices divides by 3: not exact in binary, compared within 1e-12 *)
+Definition fv_close (a b : fv) : nat :=
+  match a, b with
+  | Fin x, Fin y => if Qeq_bool x y then 0%nat else if Qle_bool (Qabs (x - y)) ((1 # 1000000000000) * (Qabs x + Qabs y)) then 1%nat else 2%nat
+  | _, _ => if fv_eqb a b then 0%nat else 2%nat
+  end.
+Fixpoint close_lists (a b : list fv) : nat :=
+  match a, b with [], [] => 0%nat | x :: s, y :: t => Nat.max (fv_close x y) (close_lists s t) | _, _ => 3%nat end.
+Definition cmp_res_tol (r : result (lattice fv)) (self : lattice fv) (e : expect) : nat :=
+  match r, e with
+  | Ok l, EGrid g => Nat.max (close_lists (flat l) g) (if Nat.eqb (npts (ax l)) (npts (ax self)) then 0 else 2)
+  | Err a, EErr b => if err_eqb a b then 0 else 2
+  | _, _ => 2
+  end%nat.
 (* csv: tok := fv, fmt := parse := identity; the row is what the harness read from the file the real code wrote *)
 Definition idf (d : fv) := d.
 Definition check_csv (s : pstate) (row : list fv) (ext' : list fv) (n' : nat * nat * nat) (grid' : list fv) : nat :=
@@ -698,7 +712,7 @@ def coq_case(case, got, intern=None):
             term = f"(average fv fv_sum fv_divn {self_t} {coq_list(others)})"
         else:
             term = f"(Ok (rescale fv fv_mul {self_t} {fv(case['factor'])}))"
-        return f"(cmp_res {term} {self_t} {exp})"
+        return f"({'cmp_res_tol' if op == 'average' else 'cmp_res'} {term} {self_t} {exp})"
     if k == "csv":
         n = case["n"]
         s = (f"{{| ext := {coq_list([fv(v) for v in case['ext']])}; cnt := ({n[0]}, {n[1]}, {n[2]})%nat; "
@@ -726,7 +740,7 @@ def fmt_law_stream(rng, count):
 
 def correspondence(ctx, model_ok=True):
     quick = ctx.quick
-    n_addr, n_arith, n_csv = (24, 60, 40) if quick else (160, 500, 300)
+    n_addr, n_arith, n_csv = (24, 60, 40) if quick else (400, 1500, 1000)
     cases = []
     corpus = os.path.join(C.VERIF, "corpus", ID)
     if os.path.isdir(corpus):
@@ -826,8 +840,8 @@ def correspondence(ctx, model_ok=True):
         for i, c in zip(own, cs):
             codes[i] = c
     out["exact_agreements"] = sum(1 for c in codes.values() if c == 0)
-    out["tolerance_agreements"] = 0
-    out["traces_validated_against_impl"] = out["exact_agreements"]
+    out["tolerance_agreements"] = sum(1 for c in codes.values() if c == 1)
+    out["traces_validated_against_impl"] = out["exact_agreements"] + out["tolerance_agreements"]
     for i, code in sorted(codes.items()):
         if code >= 2:
             c = cases[i]
